@@ -222,7 +222,7 @@ CLAIMED = {
        "unaligned writeSize/writeInt64); arbitrary object graphs incl. sharing and cycles are restored as the same graph "
        "up to an injective pointer->pool-index renaming; a stream with another level is rejected. Store/load operation "
        "lists of all 79 serialize methods, 5 helper pairs and 28 XTemplateSerializer pairs are regenerated from the source "
-       "and proved symmetric by decide; symmetric straight-line lists are proved to round-trip. DatatypeValidator::storeDV/loadDV: the "is a built-in" decision is the identity test as extracted from the source, and for every registry state a stored reference is "
+       "and proved symmetric by decide; symmetric straight-line lists are proved to round-trip. DatatypeValidator::storeDV/loadDV: the 'is a built-in' decision is the identity test as extracted from the source, and for every registry state a stored reference is "
        "restored as the shared built-in iff it IS that built-in - a user type whose local name equals a built-in's comes back as its own copy "
        "(dv_reference_identity; dv_name_test_unsound is the witness for the name test).",
   note="PARTIAL: the pool round trip (grammar/XSModel dumps, verdicts, error-code multisets, defaulted attributes, type "
